@@ -2,6 +2,23 @@
 import json, os, random, time, hashlib
 import common as C
 import gen_msg as GM
+import wire as W
+
+
+def hostile_hex(p):
+    """Bytes for an abstract hostile packet exported by the model (payload content is irrelevant: 0xAB filler)."""
+    fill = lambda n: bytes([0xAB]) * n
+    k = p["kind"]
+    if k == "SR":
+        return W.small_reliable(p["seq"], p["ch"], [(m["mid"], fill(m["len"])) for m in p["msgs"]]).hex()
+    if k == "SU":
+        return W.small_unreliable(p["seq"], p["ch"], [fill(m["len"]) for m in p["msgs"]]).hex()
+    if k in ("RS", "US"):
+        sl = p["sl"]
+        return W.slice_packet(k == "RS", p["seq"], p["ch"], sl["mid"], sl["idx"], sl["n"], fill(sl["len"])).hex()
+    if k == "ACK":
+        return W.ack(p["seq"], [tuple(r) for r in p["ranges"]]).hex()
+    return "ff00000000"
 
 
 PAR = int(os.environ.get("VERIF_PAR", "12"))
@@ -34,7 +51,7 @@ def nontrivial_msg(s):
 
 def signature(pid, flag, ev):
     """Signature of a violation: clause + abstract fields of the violating event (used by known_findings.json)."""
-    sig = {"property": pid, "clauses": sorted(c for p, c in flag["flags"] if p == pid), "ev": ev.get("ev")}
+    sig = {"property": pid, "clauses": sorted((c if p == pid else p + "_" + c) for p, c in flag["flags"]), "ev": ev.get("ev")}
     if ev.get("ev") == "deliver":
         p = ev.get("p", {})
         sig["label"] = ev.get("label")
@@ -82,7 +99,7 @@ def mc_job(name, module, cfgs, props, export=True, cap_q=700, cap_t=20000, worke
                 rounds = cfg_const(cfg_text, "HealRounds", 4)
                 dt = cfg_const(cfg_text, "HealDt", 300)
                 for i, p in enumerate(paths):
-                    steps = list(p["steps"])
+                    steps = [dict(st, hex=hostile_hex(st["p"])) if st["a"] == "hostile" else st for st in p["steps"]]
                     nr = sum(1 for st in steps if st["a"] == "round")
                     if not any(st["a"] == "heal" for st in steps):
                         steps.append({"a": "heal", "conn": 1, "bound": bound, "lose": rng.random() < 0.5})
@@ -202,7 +219,7 @@ def run_check(pid, tier, replay=None):
             s = scheds[0]
             samples.append({"generator": name, "id": s.get("id"), "cfg": s["cfg"], "steps": s["steps"][:25], "n_steps": len(s["steps"])})
         for fl in res["flags"]:
-            mine = [f for f in fl["flags"] if f[0] == pid]
+            mine = [f for f in fl["flags"] if f[0] in plan.props]
             if not mine:
                 continue
             ev = event_at(res["trace_path"], fl["run"], fl["i"])
@@ -350,6 +367,18 @@ def g_random_budget(rng, tier, props):
     return out
 
 
+def g_hostile(rng, tier, props):
+    full = tier != "quick"
+    pk = GM.hostile_structural(rng, full=full)
+    samples = [W.small_reliable(3, 2, [(0, GM.fill(5)), (1, GM.fill(7))]), W.small_unreliable(3, 0, [GM.fill(4)]),
+               W.slice_packet(True, 3, 2, 0, 1, 3, GM.fill(1200)), W.slice_packet(False, 3, 0, 0, 1, 2, GM.fill(101)),
+               W.ack(3, [(0, 2), (4, 5), (9, 12)])]
+    pk += GM.hostile_mutations(rng, samples, 300 if not full else 3000)
+    if not full:
+        pk = rng.sample(pk, min(len(pk), 1800))
+    return GM.hostile_schedules(rng, props, pk, per_run=2, groups=GM.hostile_groups(rng))
+
+
 def g_random_mem(rng, tier, props):
     """C09: duplicates of slices after consumption with older ids missing, tight budgets, stale unreliable fragments, long runs."""
     out = []
@@ -394,6 +423,12 @@ PLANS = {
     "C03": Plan("msg", "TraceRenetMon", ["C03"], [("random_u", g_random_u), ("random_mixed", g_random_mixed)],
                 mc=[mc_job("conn_u", "MC_Conn", {"quick": ["MC_C03_q1.cfg", "MC_C03_q2.cfg"], "thorough": ["MC_C03_q1.cfg", "MC_C03_q2.cfg", "MC_C03_t1.cfg"]}, ["C03"])],
                 level="model_checking", assumptions=MSG_ASSUME),
+    "C06": Plan("msg", "TraceRenetMon", ["C06", "C01", "C02", "C03"], [("hostile", g_hostile)],
+                mc=[mc_job("conn_hostile", "MC_Conn", {"quick": ["MC_C06_q1.cfg"], "thorough": ["MC_C06_q1.cfg", "MC_C06_t1.cfg"]}, ["C06"])],
+                level="model_checking", assumptions=MSG_ASSUME,
+                rule="hostile datagrams: model-exported abstract boundary packets + structural field-boundary packets, truncations, header-byte "
+                     "replacements and seeded random strings, each injected into a connection in one of the state classes fresh / mid-reassembly / "
+                     "buffered / drained / disconnected; distinct = different step lists"),
     "C08": Plan("msg", "TraceRenetMon", ["C08"], [("random_acks", g_random_acks), ("random_mixed", g_random_mixed)],
                 mc=[mc_job("conn_acks", "MC_Conn", {"quick": ["MC_C08_q1.cfg", "MC_C08_q2.cfg"], "thorough": ["MC_C08_q1.cfg", "MC_C08_q2.cfg", "MC_C01_t1.cfg"]}, ["C08"])],
                 level="model_checking", assumptions=MSG_ASSUME),
